@@ -317,4 +317,19 @@ def keepsDigits (input output : Str) : Bool := digitsOf input == digitsOf output
 def keepsDigitsSuffix (input output : Str) : Bool :=
   (digitsOf input).reverse.isPrefixOf (digitsOf output).reverse
 
+/-! ## normalisation: what "without its country prefixes" means
+
+Country codes are two letters.  A code "carries a country prefix" when its first
+two characters are one of the codes of the identity (its country, or an
+alternative code the regime names: `GR` for Greece, `XI`/`XU` for the United
+Kingdom); the normalised code is what is left when every such leading code has
+been removed. -/
+def stripCodes (codes : List Str) : Str → Str
+  | a :: b :: rest => if codes.contains [a, b] then stripCodes codes rest else a :: b :: rest
+  | s => s
+
+/-- `s` ends with `suf` -/
+def endsWith (suf s : Str) : Bool := suf.reverse.isPrefixOf s.reverse
+/-- CH: the VAT suffixes that may follow the number -/
+def chSuffixes : List Str := [['M','W','S','T'], ['T','V','A'], ['I','V','A']]
 end GoblVerif.Spec.TaxId
